@@ -140,7 +140,7 @@ func NewCtx(prop, tier string) *Ctx {
 	c.Scratch = d
 	c.loadFindings()
 	c.OutRoot = root
-	if repo := os.Getenv("VERIF_REPO"); repo != "" && repo != "/repo" {
+	if repo := os.Getenv("VERIF_REPO"); (repo != "" && repo != "/repo") || os.Getenv("VERIF_TRIAL") != "" {
 		// a trial against another checkout (seeded change): its evidence and
 		// replays must not overwrite those of the real tree
 		c.OutRoot = filepath.Join(os.TempDir(), "verif-trial")
